@@ -9,6 +9,7 @@ package vmchk
 import (
 	"fmt"
 	"sort"
+	"strconv"
 	"strings"
 
 	"github.com/sarchlab/akita/v5/hooking"
@@ -292,6 +293,19 @@ type tlbStats struct {
 	dropped  int
 	invalid  int // entries found invalidated by an Invalidate
 	shadow   [][]vm.Page
+	// textual-key reach (see textKey): fills that left two valid entries of
+	// different processes with equal textKey in one set, and requests received
+	// while such an entry of another process was resident in the request's set
+	textKeyPairs   int
+	textKeyLookups int
+}
+
+// textKey is the unpadded textual concatenation of a process ID (decimal) and a
+// virtual address (hex). Distinct (pid, vaddr) pairs can share it, e.g.
+// (1, 0x11000) and (11, 0x1000); it is only used to label how often the
+// generator makes such pairs meet in one TLB set.
+func textKey(pid vm.PID, vaddr uint64) string {
+	return strconv.FormatUint(uint64(pid), 10) + strconv.FormatUint(vaddr, 16)
 }
 
 func (ts *tlbStats) refresh() {
@@ -612,8 +626,21 @@ func (st *stack) attachObservers() {
 		st.stats = append(st.stats, ts)
 		sets := uint64(st.c.TLBs[i].Sets)
 		t.GetPortByName("Top").AcceptHook(&fnHook{func(ctx hooking.HookCtx) {
-			if ctx.Pos == messaging.HookPosPortMsgSend {
+			switch ctx.Pos {
+			case messaging.HookPosPortMsgSend:
 				ts.topRsps++
+			case messaging.HookPosPortMsgRecvd:
+				req, ok := ctx.Item.(vmprotocol.TranslationReq)
+				if !ok {
+					return
+				}
+				k := textKey(req.PID, req.VAddr)
+				for _, b := range ts.comp.State.Sets[int(req.VAddr/st.c.pageSize()%sets)].Blocks {
+					if b.Page.Valid && b.Page.PID != req.PID && textKey(b.Page.PID, b.Page.VAddr) == k {
+						ts.textKeyLookups++
+						break
+					}
+				}
 			}
 		}})
 		t.GetPortByName("Control").AcceptHook(&fnHook{func(ctx hooking.HookCtx) {
@@ -644,6 +671,14 @@ func (st *stack) attachObservers() {
 						ts.evicts++
 					}
 					ts.shadow[si][wi] = cur
+				}
+				for wi, a := range s.Sets[si].Blocks {
+					for _, b := range s.Sets[si].Blocks[wi+1:] {
+						if a.Page.Valid && b.Page.Valid && a.Page.PID != b.Page.PID &&
+							textKey(a.Page.PID, a.Page.VAddr) == textKey(b.Page.PID, b.Page.VAddr) {
+							ts.textKeyPairs++
+						}
+					}
 				}
 			}
 		}})
